@@ -82,6 +82,7 @@ def make_case(rng: random.Random, *, funcs=None, chunked=None, dtypes=None, stre
         mc = rng.choice(mcs)
         c = Case(func=func, dtype=dtype, vals=vals, labels=labels, expected=exp, sort=rng.choice(sorts), fill=fill,
                  min_count=mc, ddof=rng.choice([0, 0, 1]), engine=rng.choice(engines or ENGINES), stream=stream)
+        c.expected_kind = rng.choice(["array", "array", "list", "index"])
         is_chunked = rng.random() < 0.5 if chunked is None else chunked
         if is_chunked:
             c.method = rng.choice(methods)
@@ -338,6 +339,10 @@ class C06(ReduceProp):
                 c.vals = [v if (isinstance(v, float) and v != v) else float(rng.choice([-1, 2, 2, 2])) for v in c.vals]
             else:
                 c.vals = [rng.choice([-1, 2, 2, 2]) for _ in c.vals]
+            if c.dtype == "int64" and rng.random() < 0.4:
+                # integers beyond 2**53: neighbouring values are distinct as int64 but collide as float64
+                base = rng.choice([2**60, -(2**60), 2**55])
+                c.vals = [base + rng.choice([0, 1, 2, 3]) for _ in c.vals]
             if c.chunks is not None:
                 c.chunks = gen_chunks(rng, len(c.vals), rng.choice(["ones", "single", "random", "random"]))
             if legal(c):
